@@ -20,6 +20,7 @@ pub enum ApiKind {
     Sink,
     Err,
     ErrVersioned,
+    SinkVersioned,
     Ws,
     All,
 }
